@@ -4,13 +4,13 @@ package main
 // fills explicitly (CacheSync actions) and with the registered event handlers captured.
 
 import (
-	"time"
 	"flag"
 	"fmt"
 	"io"
 	"reflect"
 	"sort"
 	"sync"
+	"time"
 
 	kubeapps "k8s.io/api/apps/v1"
 	v1 "k8s.io/api/core/v1"
